@@ -117,10 +117,7 @@ Theorem c15_failure_class_refuted :
     usim_check aes128 k opc rand a sqn = MacFailure /\
     Milenage_check aes128 opc k sqn rand a
     = CheckRet (-2) (f2 aes128 k opc rand) (f3 aes128 k opc rand) (f4 aes128 k opc rand) (Some (auts aes128 k opc rand sqn)).
-Proof.
-  destruct failure_class_refuted_witness as [W1 W2].
-  exists opc1, k1, sqn1, rnd1, bad_autn1. do 5 (split; [reflexivity|]). split; [exact W1|exact W2].
-Qed.
+Proof. exact failure_class_refuted. Qed.
 Print Assumptions c15_failure_class_refuted.
 
 (* ---- non-vacuity.  aes128 made total on arbitrary lists satisfies both hypotheses about E, coincides with
